@@ -173,6 +173,7 @@ stat:
         TFunction funcname funcbody {
             $$ = &ast.FuncDefStmt{Name: $2, Func: $3}
             $$.SetLine($1.Pos.Line)
+            $3.SetLine($1.Pos.Line) // linedefined of a function statement is the line of its keyword
             $$.SetLastLine($3.LastLine())
         } |
         TLocal TFunction TIdent funcbody {
